@@ -159,6 +159,28 @@ func genPlanQuery(r *rand.Rand, t *jTable) string {
 		from = "(" + inner + ")"
 	}
 	q := "SELECT " + sel + " FROM " + from
+	if !sub && r.Intn(4) == 0 {
+		// time ranges: absolute bounds on and off the resolution grid, and offsets relative to the clock
+		tsAt := func() string {
+			ns := baseSec*int64(time.Second) + int64(r.Intn(14))*t.ResNS
+			switch r.Intn(3) {
+			case 0:
+			case 1:
+				ns += t.ResNS / 2
+			default:
+				ns += r.Int63n(t.ResNS)
+			}
+			return fmtTime(time.Unix(0, ns))
+		}
+		switch r.Intn(4) {
+		case 0:
+			q += " ASOF '" + tsAt() + "'"
+		case 1, 2:
+			q += " ASOF '" + fmtTime(time.Unix(baseSec-10, 0)) + "' UNTIL '" + tsAt() + "'"
+		default:
+			q += fmt.Sprintf(" ASOF '-%v'", res*time.Duration(1+r.Intn(10)))
+		}
+	}
 	if r.Intn(3) == 0 {
 		q += " WHERE " + c11Where(r)
 	}
@@ -183,6 +205,14 @@ func genPlanQuery(r *rand.Rand, t *jTable) string {
 		keys = append(keys, dims...)
 		keys = append(keys, "_time")
 		q += " ORDER BY " + strings.Join(keys, ", ")
+		// LIMIT/OFFSET only where the order is total (the keys cover the whole group key), so that the slice is determined
+		if (len(dims) > 0 || strings.Contains(gb, "GROUP BY _")) && !strings.Contains(gb, "*") && !strings.Contains(gb, "CROSSTAB") && r.Intn(2) == 0 {
+			if r.Intn(2) == 0 {
+				q += fmt.Sprintf(" LIMIT %d, %d", 1+r.Intn(4), 1+r.Intn(6)) // offset, count
+			} else {
+				q += fmt.Sprintf(" LIMIT %d", 1+r.Intn(6))
+			}
+		}
 	}
 	return q
 }
